@@ -100,6 +100,14 @@ impl Stream for Dos {
                 }
             }
         }
+        // non-UTC offsets around the ends of the range: the range check is on the local calendar year
+        for (y, mo, d) in [(1979i64, 12u64, 31u64), (1980, 1, 1), (2107, 12, 31), (2108, 1, 1), (2000, 6, 15)] {
+            for (h, mi) in [(0u64, 0u64), (0, 30), (12, 0), (23, 30), (23, 59)] {
+                for off in [0i64, 3600, -3600, -18000, 32400, -43200, 50400, 1800, -86399, 86399] {
+                    g.push("tryfrom.offset", format!("dos.tryfrom y={y} mo={mo} d={d} h={h} mi={mi} s=0 off={off}"));
+                }
+            }
+        }
         for y in [-9999i64, -1, 0, 1, 1979, 2108, 9999] {
             g.push("tryfrom.far", format!("dos.tryfrom y={y} mo=1 d=1 h=0 mi=0 s=0"));
         }
@@ -151,11 +159,14 @@ impl Stream for Dos {
                     let month = match time::Month::try_from(v[0] as u8) { Ok(m) => m, Err(_) => return "invalid-cal".to_string() };
                     let date = match time::Date::from_calendar_date(y as i32, month, v[1] as u8) { Ok(d) => d, Err(_) => return "invalid-cal".to_string() };
                     let tm = match time::Time::from_hms(v[2] as u8, v[3] as u8, v[4] as u8) { Ok(t) => t, Err(_) => return "invalid-cal".to_string() };
-                    let o = time::PrimitiveDateTime::new(date, tm).assume_utc();
+                    // the conversion reads the LOCAL calendar fields of the value; `off` (seconds) chooses its UTC offset
+                    let off = get_i64(&a, "off").unwrap_or(0);
+                    let offset = match time::UtcOffset::from_whole_seconds(off as i32) { Ok(o) => o, Err(_) => return "invalid-cal".to_string() };
+                    let o = time::PrimitiveDateTime::new(date, tm).assume_offset(offset);
                     match DateTime::try_from(o) {
                         Ok(x) => {
                             let back = match x.to_time() {
-                                Ok(o2) => if o2 == o { "back=same" } else { "back=diff" },
+                                Ok(o2) => if (o2.year(), o2.month(), o2.day(), o2.hour(), o2.minute(), o2.second()) == (o.year(), o.month(), o.day(), o.hour(), o.minute(), o.second()) { "back=same" } else { "back=diff" },
                                 Err(_) => "back=err",
                             };
                             format!("ok {} {}", show(&x), back)
